@@ -541,13 +541,17 @@ def _r4(chk, repo):
 def _r5(chk, repo):
     dens = repo.cls(DENSITY)
     gfn = repo.method(dens, "gradient")[1]
-    g = CFG(gfn)
-    fd = [n for n in g.returns() if isinstance(n.ast.value, ast.Call) and (call_name(n.ast.value) or "").endswith("approx_gradient")]
-    an = [n for n in g.returns() if isinstance(n.ast.value, ast.Call) and call_name(n.ast.value) == "self._gradient"]
-    ok = len(fd) == 1 and len(an) == 1 and unparse(fd[0].ast.value.args[0]) == "self.logd" \
-        and any(unparse(t.ast) == "self.FD_enabled" and lab == "T" for t, lab in g.guards_of(fd[0])) \
-        and any(unparse(t.ast) == "self.FD_enabled" and lab == "F" for t, lab in g.guards_of(an[0])) \
-        and any(k.arg == "epsilon" and unparse(k.value) == "self.FD_epsilon" for k in fd[0].ast.value.keywords)
+    # two-row decision table on the view with private helpers inlined: FD_enabled -> approx_gradient(self.logd, <the arguments>, epsilon=self.FD_epsilon),
+    # otherwise self._gradient(<the arguments>)
+    from .common import canon_fn as _cfn
+    from ..pathtable import walk as _walk
+    gv = _cfn(repo, dens, gfn, 2)
+    rows = {}
+    for val in (True, False):
+        k_, r_ = _walk(gv, {pn("self.FD_enabled"): val}, pn)
+        rows[val] = pn(r_) if k_ == "return" else None
+    ok = rows[True] in (pn("cuqi.utilities.approx_gradient(self.logd,*args,**kwargs,epsilon=self.FD_epsilon)"), pn("approx_gradient(self.logd,*args,**kwargs,epsilon=self.FD_epsilon)")) \
+        and rows[False] == pn("self._gradient(*args,**kwargs)")
     chk.add("C03-R5", f"{dens.qual}.gradient", ok, site(repo, gfn), "FD_enabled -> approx_gradient(self.logd, ..., epsilon=self.FD_epsilon); else self._gradient",
             "the finite-difference branch does not differentiate self.logd under FD_enabled, or the analytic branch is not its complement", gfn)
     ag = repo.func("cuqi/utilities/_utilities.py:approx_gradient")
